@@ -63,6 +63,8 @@ def check_stop(ctx, case):
         k_buf[...] = a_key
         s_buf[...] = a_state
         a_state, a_key = s_buf, k_buf
+    if not case.get('prime'):
+        a_state, a_key = gen.L(case, a_state), gen.L(case, a_key, 3)       # C / Fortran / strided / negative-stride views
     s0, k0 = a_state.copy(), a_key.copy()
     out = must(case, 'aes.%s(at_round=%s, after_step=%s, shape=%s)' % (mode, rnd, step, shape), f, a_state, a_key, **kw)
     # documented defaults: at_round omitted = last round, after_step omitted = last operation of the round
